@@ -34,6 +34,8 @@ def values():
         "part3": lambda: _partition({"p": "dup-value", "q": "dup-value", "r": [7, 8], "s": [7, 8], "t": None}),
         # a recorded failure (stored like a value: calls that failed alike share the stored object)
         "exc": _failure(),
+        # one value per call, never produced by any other call
+        **{"u%d%d" % (f, a): "unique result of call %d/%d" % (f, a) for f in range(3) for a in range(NARGS)},
     }
 
 
@@ -128,6 +130,20 @@ def gen_history(rng, length, readonly_safe=False, valkeys=None, funcs=3):
             block += rng.choice([[["read", f2, a2], ["read", f1, a1]], [["read", f1, a1], ["read", f2, a2], ["read", f1, a1]]])
             at = rng.randrange(len(ops) + 1)
             ops[at:at] = block
+    # aimed block: one metadata key of one call written both ways (in the metadata store / next to the data object), the
+    # last write counts. (The call's result is unlike any other, and the call is forgotten at the end: metadata stored
+    # next to the data belongs to the stored object, which other calls with an equal result would share.)
+    if rng.random() < 0.25:
+        f, a = rng.randrange(funcs), rng.randrange(NARGS)
+        mk = rng.choice(META_KEYS)
+        block = [["memoize", f, a, "u%d%d" % (f, a), None]]
+        for i in range(rng.randint(2, 4)):
+            block.append([rng.choice(["wmeta", "wmetad"]), f, a, mk, "w%d" % i])
+            if rng.random() < 0.7:
+                block.append(["rmeta", f, a, mk])
+        block += [["rmeta", f, a, mk], ["forget_call", f, a], ["rmeta", f, a, mk]]
+        at = rng.randrange(len(ops) + 1)
+        ops[at:at] = block
     # aimed block: a call is memoized, memoized again with another value, then read through the memento of the first write
     if rng.random() < 0.25:
         f, a = rng.randrange(funcs), rng.randrange(NARGS)
@@ -180,7 +196,7 @@ class Model:
             return sorted(key[1] for key in self.d if key[0] == op[1])
         if k == "list_mems_limit":  # any min(limit, live) of the live entries
             return [op[2], sorted(key[1] for key in self.d if key[0] == op[1])]
-        if k == "wmeta":
+        if k in ("wmeta", "wmetad"):
             _, f, a, mk, mv = op
             e = self.d.get((f, a))
             if e is None:
